@@ -22,6 +22,7 @@ func main() {
 	mut := flag.String("mutants", "", "directory of mutant scripts (thorough tier self-test)")
 	verif := flag.String("verif", "/verif", "verification directory (evidence/, out/, known-findings.json)")
 	dump := flag.Bool("dump", false, "list units and exit")
+	list := flag.Bool("list", false, "print every obligation with its verdict (diagnosis)")
 	noEvidence := flag.Bool("scratch", false, "scratch run (mutant self-test): write evidence/out under -verif as given")
 	flag.Parse()
 	_ = noEvidence
@@ -100,6 +101,11 @@ func main() {
 					"results": mres,
 					"counts":  cnt,
 				},
+			}
+		}
+		if *list {
+			for _, o := range c.Obs {
+				fmt.Printf("ob %s %s %s %s\n", o.Verdict, o.Rule, o.Key, o.Detail)
 			}
 		}
 		res := c.Finish(known, *verif, *tier, seed, t0, extra)
